@@ -127,13 +127,13 @@ def U.kind : U → Kind
   | .complex _ _ => kindOfComplex
 
 /-- kinds for which `comparable` demands identical units (mod.rs:171) -/
-def Kind.selfOnly (k : Kind) : Bool := k = .fontRelative || k = .viewportRelative || k = .other
+def selfOnly (k : Kind) : Bool := k = Kind.fontRelative || k = Kind.viewportRelative || k = Kind.other
 
 /-- `Unit::comparable` (mod.rs:166) -/
 def comparable (a b : U) : Bool :=
   if b = .none then true
-  else if a.kind.selfOnly then decide (a = b)
-  else if a.kind = .none then true
+  else if selfOnly a.kind then decide (a = b)
+  else if a.kind = Kind.none then true
   else decide (b.kind = a.kind)
 
 /-- `Unit::new` (mod.rs:138) -/
